@@ -143,17 +143,13 @@ func nativeValue(t *rapid.T) interface{} {
 	}
 }
 
-var ctorCounter int
-
 func TestC12Prop(t *testing.T) {
 	if len(registry.Chars) == 0 {
 		t.Fatal("empty registry")
 	}
 	rapid.Check(t, func(t *rapid.T) {
-		// round-robin over constructors so that every one is covered in every run,
-		// offset by a draw so that shrinking can move to any of them
-		ci := (ctorCounter + rapid.IntRange(0, len(registry.Chars)-1).Draw(t, "ctor")) % len(registry.Chars)
-		ctorCounter++
+		// the constructor is part of the drawn case (replayable); TestC12Matrix enumerates every constructor in every run
+		ci := rapid.IntRange(0, len(registry.Chars)-1).Draw(t, "ctor")
 		ctor := registry.Chars[ci]
 		ch, typed, err := registry.NewChar(ctor)
 		if err != nil {
